@@ -18,6 +18,7 @@
 
 #include "weave_alignment.h"
 /* #include "weave_alignment.h" */
+#include "kalign_verif.h"
 
 #define ALN_RUN_IMPORT
 #include "aln_run.h"
@@ -127,6 +128,7 @@ int do_align(struct msa* msa,struct aln_tasks* t,struct aln_mem* m, int task_id)
         a = t->list[task_id]->a;
         b = t->list[task_id]->b;
         c = t->list[task_id]->c;
+        KALIGN_VERIF_EVENT(KV_MERGE_BEGIN, msa, a, b, c);
 
         if(msa->nsip[a] == 1){
                 m->len_a = msa->sequences[a]->len;//  aln->sl[a];
@@ -269,6 +271,7 @@ int do_align(struct msa* msa,struct aln_tasks* t,struct aln_mem* m, int task_id)
                 msa->sip[c][g] = msa->sip[b][j];
                 g++;
         }
+        KALIGN_VERIF_EVENT(KV_MERGE_END, msa, a, b, c);
 
         return OK;
 ERROR:
